@@ -10,7 +10,7 @@ pid, n, src = sys.argv[1], sys.argv[2], os.path.abspath(sys.argv[3])
 checks = sys.argv[4:] or [pid]
 w = tempfile.mkdtemp(prefix="seeded-")
 repo = os.path.join(w, "repo")
-env = dict(os.environ); env.pop("GOFLAGS", None); env["GOPROXY"] = "off"; env["ROOT"] = repo   # some demos take the tree to test from $ROOT
+env = dict(os.environ); env.pop("GOFLAGS", None); env["GOPROXY"] = "off"; env["ROOT"] = env["WORKTREE"] = repo   # some demos take the tree to test from $ROOT
 def sh(cmd, cwd=None, timeout=1500):
     p = subprocess.run(cmd, cwd=cwd, env=env, capture_output=True, text=True, timeout=timeout, shell=isinstance(cmd, str))
     return p.returncode, (p.stdout + p.stderr)
